@@ -330,6 +330,8 @@ class Run:
         self.s = None; self.th = None; self.kind = None; self.ids = None
         self.last = None          # (snapshot before, pair, resolved a, resolved b) of the last vle op
         self.two_phase_solves = 0
+        self.hist = []            # resolved (pair, a, b, total flow) of every flash of this stream, in order
+        self.hist_products = []   # … and what it produced
         self.last_sfx = set()
         self.prev_sfx = set()
         self.last_hs_ok = True
@@ -380,7 +382,8 @@ class Run:
         self.ref_two = None
         def two_phase(st):
             l_, g_, *_ = vle_split(st)
-            return bool(l_.sum() > 0 and g_.sum() > 0)
+            tot_ = l_.sum() + g_.sum()
+            return bool(tot_ > 0 and l_.sum() > 1e-6 * tot_ and g_.sum() > 1e-6 * tot_)     # strictly between the one-phase values
         if ta == '@': a = cur(ka)
         elif ta[0] == '+': a = cur(ka) + float(ta[1:])
         elif ta[0] == '*': a = cur(ka) * float(ta[1:])
@@ -390,6 +393,22 @@ class Run:
             if kb in ('H', 'S'): self.ref_two = two_phase(s)
         elif tb[0] == '*' and kb in ('P', 'V', 'H', 'S'):
             b = cur(kb) * float(tb[1:])
+        elif tb[0] == 'p' and kb == 'P':
+            # a pressure a few Pa from the phase boundary at the specified T: `p<d>` = Psat(T) + d for one volatile chemical,
+            # `pb<d>` / `pd<d>` = bubble / dew pressure + d for several (from the package's own Psat, γ, Poynting objects)
+            l, g, Fl, Fh, idx = vle_split(s)
+            chs = [self.th.chemicals.tuple[i] for i in idx]
+            if not chs: raise Skip('nothing volatile')
+            if len(chs) == 1 and tb[1] not in 'bd':
+                b = float(chs[0].Psat(a)) + float(tb[1:])
+            elif len(chs) > 1 and tb[1] in 'bd':
+                zz = (l + g) / (l + g).sum()
+                Ps = np.array([c.Psat(a) for c in chs], float)
+                Pb, Pd = own_bubble_dew(self.th, chs, zz, Ps, a)
+                b = (Pb if tb[1] == 'b' else Pd) + float(tb[2:])
+            else:
+                raise Skip('token does not fit the number of chemicals')
+            self.tags.append('spec:near-boundary')
         elif tb[0] in 'bL' and ka == 'P' and kb in ('H', 'S'):
             # H or S of the equilibrium state at the specified P and (bubble temperature of the condensable part + dT):
             # with non-condensable gas present and dT < 0 this is the region of small vaporised fractions, where the
@@ -446,6 +465,7 @@ class Run:
         except Exception as e:
             self.tags.append('skip-resolve-' + type(e).__name__); return
         ka, kb = PAIR_KW[pair]
+        if getattr(self, '_inherit_hs_ok', None) is False: self.ref_two = False
         self.last_hs_ok = self.ref_two is not False
         snap = snapshot(s)
         T0, P0 = float(s.T), float(s.P)
@@ -484,7 +504,11 @@ class Run:
         self.prev_sfx = getattr(self, 'last_sfx', set())
         self.last_sfx = set()
         self.last = (snap, pair, a, b)
+        if not getattr(self, '_in_revisit', False) and kb not in ('x', 'y'):
+            self.hist.append((pair, a, b, float((snap[0] + snap[1]).sum()), self.last_hs_ok))
         self.last_products = None if err is not None else (arr(s.imol['l']).copy(), arr(s.imol['g']).copy(), float(s.T), float(s.P))
+        if not getattr(self, '_in_revisit', False) and kb not in ('x', 'y'):
+            self.hist_products.append(self.last_products)
         self.key.append(pair)
         self.tags += [f'pair:{pair}', f'n:{ncase}', f'pkg:{self.name}']
         T1, P1 = float(s.T), float(s.P)
@@ -810,7 +834,7 @@ class Run:
         dev = max(np.abs(lk / k - l1).max(), np.abs(gk / k - g1).max()) / Ftot
         allowed = 2e-4
         if dev > allowed: allowed += 2 * self.resolution_spread(l1, g1, T1, P1, ka)
-        if dev > allowed or abs(Tk - T1) > 5e-3 or abs(Pk - P1) > 1e-5 * P1 + 2.:
+        if dev > allowed or tp_differ(T1, Tk, P1, Pk, dev):
             sfx = self.fallback_suffix(ka, kb, ((l1, g1, T1, P1), (lk / k, gk / k, Tk, Pk)))
             sfx = sfx or self.t_first_scaling_suffix(ka, kb, snap, out_iter, self.last_sfx)
             self.fail(family_sig(f'scaling:{pair}', ka, sfx, scaling=True), f'{pair} flash of k·feed (k={k}): products/k differ from products of the feed by {dev:.3g} of the total flow; T {T1} vs {Tk}, P {P1} vs {Pk}')
@@ -885,6 +909,59 @@ def _fallback_suffix(self, ka, kb, results):
 Run.fallback_suffix = _fallback_suffix
 
 
+def tp_differ(T1, Tk, P1, Pk, dev):
+    """the solved one of T, P of two equivalent flashes: equal within 5e-3 K / 1e-5·P + 2 Pa — unless the two splits agree to
+    2e-6 of the total flow, i.e. to the solver's own exit tolerance on V (V_tol = 1e-6): where V hardly depends on the solved
+    variable, the solver's stated resolution does not pin it any better"""
+    if dev <= 2e-6: return abs(Tk - T1) > 0.5 or abs(Pk - P1) > 2e-3 * P1
+    return abs(Tk - T1) > 5e-3 or abs(Pk - P1) > 1e-5 * P1 + 2.
+
+
+def _revisit(self, t):
+    """history on one stream: re-issue, with the identical numbers, the specification of the n-th flash before the current
+    one (after at least one flash with other specifications in between).  The flash is judged like any other call (so a
+    specified V / H / S / T / P that is silently skipped shows), and its products must be those the same specification
+    produced the first time (the result of a flash does not depend on what the VLE object solved before)."""
+    n = int(t[1])
+    if len(self.hist) < n or n < 2: return
+    pair, a, b, F0, hs0 = self.hist[-n]
+    first = self.hist_products[-n]
+    ka, kb = PAIR_KW[pair]
+    Fnow = float(sum(phase_arrays(self.s)).sum())
+    if F0 <= 0 or Fnow <= 0: return
+    k = Fnow / F0                                        # the stream may have been rescaled in between
+    bb = b * k if kb in ('H', 'S') else b
+    self._in_revisit = True
+    self._inherit_hs_ok = hs0
+    try:
+        self.last_products = None
+        self.vle(['vle', pair, repr(float(a)), repr(float(bb))])
+    finally:
+        self._in_revisit = False
+        self._inherit_hs_ok = None
+    self.tags += ['revisit', f'revisit:{pair}-after-{self.hist[-1][0]}']
+    if first is None or self.last_products is None: return
+    if kb in ('H', 'S') and not self.last_hs_ok: return
+    l1, g1, T1, P1 = first
+    lk, gk, Tk, Pk = self.last_products
+    Ftot = (l1 + g1).sum()
+    in_rng = lambda T, P: 280 <= T <= 450 and 2e4 <= P <= 1e6
+    if not in_rng(T1, P1) or not in_rng(Tk, Pk) or Ftot == 0: return
+    if abs((lk + gk).sum() / k - Ftot) > 1e-9 * Ftot: return         # composition changed in between (not generated)
+    if kb == 'S' and any(c.ID in S_NOISY and (l1[i] + g1[i]) > 0 for i, c in enumerate(self.th.chemicals.tuple)): return
+    dev = max(np.abs(lk / k - l1).max(), np.abs(gk / k - g1).max()) / Ftot
+    allowed = 2e-4
+    if dev > allowed: allowed += 2 * self.resolution_spread(l1, g1, T1, P1, ka)
+    if dev > allowed or tp_differ(T1, Tk, P1, Pk, dev):
+        snap = self.last[0]
+        sfx = self.fallback_suffix(ka, kb, ((l1, g1, T1, P1), (lk / k, gk / k, Tk, Pk)))
+        sfx = sfx or self.t_first_scaling_suffix(ka, kb, snap, getattr(self, 'last_out_of_iter', False), self.last_sfx)
+        self.fail(family_sig(f'revisit:{pair}', ka, sfx, scaling=True),
+                  f'{pair} flash repeated with identical numbers after flashes with other specifications ({[h[0] for h in self.hist[-n + 1:]]}): '
+                  f'products differ from the first time by {dev:.3g} of the total flow; T {T1} vs {Tk}, P {P1} vs {Pk}; vapour first {g1}, now {gk / k}')
+Run.revisit = _revisit
+
+
 def _rescale(self, t):
     """multiply every flow of THE SAME stream by k (the VLE object and whatever it remembers stay)"""
     self.s.scale(float(t[1]))
@@ -909,7 +986,11 @@ def _revle(self, t):
     bb = b * k if kb in ('H', 'S') else b
     nf = len(self.failures)
     self.last_products = None
-    self.vle(['vle', pair, repr(float(a)), repr(float(bb))])
+    self._inherit_hs_ok = hs_ok          # the re-issued target is the same one: in or out of the quantifier's H/S range as before
+    try:
+        self.vle(['vle', pair, repr(float(a)), repr(float(bb))])
+    finally:
+        self._inherit_hs_ok = None
     self.tags.append('revle')
     if self.last_products is None: return
     lk, gk, Tk, Pk = self.last_products
@@ -922,7 +1003,7 @@ def _revle(self, t):
     dev = max(np.abs(lk / k - l1).max(), np.abs(gk / k - g1).max()) / Ftot
     allowed = 2e-4
     if dev > allowed: allowed += 2 * self.resolution_spread(l1, g1, T1, P1, ka)
-    if dev > allowed or abs(Tk - T1) > 5e-3 or abs(Pk - P1) > 1e-5 * P1 + 2.:
+    if dev > allowed or tp_differ(T1, Tk, P1, Pk, dev):
         sfx = self.fallback_suffix(ka, kb, ((l1, g1, T1, P1), (lk / k, gk / k, Tk, Pk)))
         sfx = sfx or self.t_first_scaling_suffix(ka, kb, snap, out1 or getattr(self, 'last_out_of_iter', False),
                                                  self.last_sfx | getattr(self, 'prev_sfx', set()))
@@ -950,6 +1031,7 @@ def run_ops(ops):
         elif t[0] == 'scale': r.scale(t)
         elif t[0] == 'rescale': r.rescale(t)
         elif t[0] == 'revle': r.revle(t)
+        elif t[0] == 'revisit': r.revisit(t)
         else: raise ValueError('unknown op ' + line)
     return r
 
@@ -1079,6 +1161,16 @@ def gen_case(rng, ti=None):
         ops[-1] = low_vap().replace(' @ ', f' {P} ').replace(' *0.8 ', f' {P} ').replace(' *1.25 ', f' {P} ')   # on the fresh stream
     if has_gas:
         for _ in range(rng.randrange(1, 4)): ops.append(low_vap())
+    if k == 1 and not inert:
+        # one volatile chemical: T,P flashes a few Pa either side of the saturation pressure, from every prior phase state
+        for _ in range(rng.randrange(1, 4)):
+            prior = rng.choice(['vle TP @ *0.5', 'vle TP @ *2.0', f'vle PV @ {round(rng.uniform(0.1, 0.9), 3)}', None])
+            if prior: ops.append(prior)
+            d = round(rng.choice([-1, 1]) * 10 ** rng.uniform(0.1, 2.7), 2)
+            ops.append(f'vle TP {rng.choice(["@", "+4", "+-5"])} p{d}')
+    elif not inert and rng.random() < 0.3:
+        d = round(rng.choice([-1, 1]) * 10 ** rng.uniform(0.7, 2.7), 2)
+        ops.append(f'vle TP @ p{rng.choice("bd")}{d}')
     if rng.random() < 0.5:
         ops.append('vle TP @ @')
         ops.append(f'revle {rng.choice([2.0, 0.25, 3.0, 10.0, 1.5])}')
@@ -1095,6 +1187,8 @@ def gen_case(rng, ti=None):
             ops.append(rng.choice(['vle Tx +2 @', 'vle Ty +2 @', 'vle Px *1.05 @', 'vle Py *1.05 @']))
         else:
             ops.append(rng.choice(menu))
+        if rng.random() < 0.22 and sum(1 for o in ops if o.startswith('vle')) >= 2:
+            ops.append(f'revisit {rng.choice([2, 2, 3])}')        # an earlier specification again, after other pairs
         r2 = rng.random()
         if r2 < 0.2:
             ops.append(f'scale {rng.choice([2.0, 0.5, 3.0, 10.0, 0.1, 7.0])}')
@@ -1107,7 +1201,36 @@ def gen_case(rng, ti=None):
     return Case(ops, {})
 
 
+def revisit_grid():
+    """every specification pair X re-issued with identical numbers after a flash with every pair Y that moved the state"""
+    feeds = ['feed 0 300.0 101325.0 l:Methanol=4.0,Ethanol=3.5,1-Butanol=2.5', 'feed 4 300.0 101325.0 l:Hexane=6.0,Octane=4.0',
+             'sfeed 10 300.0 101325.0 l:Hexane=3.0,Heptane=4.0,Toluene=3.0']
+    X = ['vle TP @ @', 'vle TV @ @', 'vle TH @ @', 'vle TS @ @', 'vle PV @ @', 'vle PH @ @', 'vle PS @ @']
+    Y = ['vle TP +3 @', 'vle TV @ 0.7', 'vle TH @ v0.7', 'vle TS @ v0.7', 'vle PV @ 0.7', 'vle PH @ v0.7', 'vle PS @ v0.7']
+    out = []
+    for f in feeds:
+        for x in X:
+            for y in Y:
+                out.append(Case([f, 'vle PV 101325.0 0.4', x, y, 'revisit 2']))
+    return out
+
+
+def saturation_grid():
+    """one volatile chemical, T,P flash ±1.5 … ±30 Pa from Psat(T), from an all-liquid, an all-vapour and a two-phase
+    prior state (the phase-boundary clause for one chemical; P_tol = 1 Pa)"""
+    feeds = ['feed 0 300.0 101325.0 l:Ethanol=10.0', 'feed 4 300.0 101325.0 l:Heptane=2.5', 'feed 2 300.0 101325.0 l:Water=7.0']
+    out = []
+    for f in feeds:
+        for T in (320.0, 350.0, 380.0):
+            for prior in (None, f'vle TP {T} 2000.0', f'vle TV {T} 0.5'):
+                for d in (-30.0, -8.0, -3.0, -1.5, 1.5, 3.0, 8.0, 30.0):
+                    out.append(Case([f] + ([prior] if prior else []) + [f'vle TP {T} p{d}']))
+    return out
+
+
 def generate(rng, tier, index, nworkers):
+    for i, c in enumerate(revisit_grid() + saturation_grid()):
+        if i % nworkers == index: yield c
     n = max(1, budget(tier)['cases'] // nworkers)
     for i in range(n):
         # every package is visited by every worker; singles and inert feeds appear through gen_feed's own draws
